@@ -12,7 +12,7 @@ import (
 )
 
 func init() {
-	Registry["C14"] = Check{Level: "model_checking", Run: runC14, Replay: replayC14}
+	Registry["C14"] = Check{GC: 25, Level: "model_checking", Run: runC14, Replay: replayC14}
 }
 
 // ---- trace line parser (shared by the three renderers of the two packages)
